@@ -68,6 +68,9 @@ var jsFiles = [][]string{
 	{"{namespace a}\n/** @param x */\n{template .t}\n{call ui.w.button data=\"all\"/}{call ui.w.Button data=\"all\"/}{call ui.W.button data=\"all\"/}{call ui.w.BUTTON data=\"all\"/}{$x|truncate:3}{$x|escapeUri}\n{/template}\n",
 		"{namespace ui.w}\n/** @param x */\n{template .button}\nb{$x}\n{/template}\n/** @param x */\n{template .Button}\nB{$x}\n{/template}\n/** @param x */\n{template .BUTTON}\nBB{$x}\n{/template}\n",
 		"{namespace ui.W}\n/** @param x */\n{template .button}\nWb{$x}\n{/template}\n"},
+	// 5: control flow with empty branches and bodies
+	{"{namespace a}\n/** @param x\n @param y\n @param l */\n{template .t}\n{if $x}{else}e{/if}{if $x}{elseif $y}b{/if}{if $x}a{elseif $y}{else}c{/if}{if $x}{/if}" +
+		"{switch $x}{case 1}{case 2}two{default}{/switch}{foreach $i in $l}{ifempty}none{/foreach}{foreach $i in $l}{$i}{ifempty}{/foreach}{let $z}{/let}{$z}{call .u}{param p}{/param}{/call}{msg desc=\"d\"}{/msg}\n{/template}\n/** @param? p */\n{template .u}\n{if $p}{/if}\n{/template}\n"},
 }
 
 var jsGlobals = data.Map{"G_MAP": data.Map{"k2": data.Int(2), "k1": data.String("v"), "k3": data.List{data.Int(1)}}, "G_STR": data.String("s")}
